@@ -20,7 +20,8 @@ RULE = ("case = tool in {colander, combine, chef(user recipe), mandoline(array/p
         "fault-free pilot run numbers every open-for-write/write/close/mkdir site of the run (parent and pool "
         "workers, same seeded schedule), then each site is hit once per applicable kind (EACCES/ENOSPC/EMFILE at "
         "open, EIO/ENOSPC/torn prefix at write, EIO at close, ENOSPC/EACCES at mkdir; transient or sticky) up to the "
-        "per-case cap, a drawn subset above it. Checked on every run: audit log (writes only under the requested "
+        "per-case cap, a drawn subset above it; kind CRASH = the process is killed at that open/write (a BaseException no "
+        "handler is meant to see): only the input/confinement invariants are demanded then. Checked on every run: audit log (writes only under the requested "
         "output or, for defaults, beside and never inside an input), before/after snapshots of every input tree "
         "(content, size, mode, mtime, listing), and when a fault fired: exception / non-zero exit, or genuine "
         "recovery (output byte-identical to the pilot). evaluations = tool executions; non-trivial = a fault fired "
@@ -266,7 +267,11 @@ def run_case(ctx):
             if r.fired:
                 ctx.nontrivial = True
                 ctx.stats["faulted_runs"] += 1
-                if not r.outcome.failed_visibly():
+                if fk == "CRASH":
+                    # the process was killed at that point: nobody is left to be told; what must
+                    # still hold is checked above (inputs untouched, writes confined)
+                    ctx.probe("crash_points")
+                elif not r.outcome.failed_visibly():
                     if r.digest == pilot.digest:
                         ctx.probe("recovered_from_fault")
                     else:
